@@ -4,11 +4,12 @@ Each case is a program of the DSL of coq/Model/Kwargs.v, emitted twice: as a Gal
 source (written to a file in a scratch directory by tie/impl/c13_kwargs.py). The real resolver's answer is compared
 with Model.resolve, the real interpreter's answers with Spec.call, and the property is decided inside Coq."""
 import itertools
+import os
 
 from tie.framework import g_N, g_Z, g_bool, g_list, g_nat, g_opt, g_pair, g_str, run_impl_parallel
 
 PROP = "C13"
-IMPORTS = "From JV Require Import Lib.Base Model.Kwargs Model.KwargsGuard Spec.KwargsSpec Corr.C13Judge."
+IMPORTS = "From JV Require Import Lib.Base Model.Kwargs Model.KwargsGuard Model.C13KwargsFx Spec.KwargsSpec Corr.C13Judge."
 RULE = ("seeded random programs: 1-6 classes in hierarchies of depth 1-5 (single and multiple inheritance, C3-consistent, "
         "own or inherited __init__, overridable methods), 0-3 functions; bodies of kwargs.pop/get and at most one forwarding "
         "call (super().__init__, function, class, self.method) with positional and hard-coded keyword arguments; names from "
@@ -20,8 +21,8 @@ TRUSTED = [
     "Coq 8.16.1 kernel + vm_compute",
     "tie/impl/c13_kwargs.py (observation of the real resolver / parser / interpreter), the DSL-to-Python renderer and the "
     "DSL-to-Gallina printer in tie/props/c13.py (one JSON program rendered twice)",
-    "hand-written model coq/Model/Kwargs.v (resolver) and reference semantics coq/Spec/KwargsSpec.v (CPython keyword "
-    "binding), each tied by per-case agreement evaluated inside Coq",
+    "hand-written model coq/Model/Kwargs.v (resolver; coq/Model/C13KwargsFx.v once repairs are applied) and reference "
+    "semantics coq/Spec/KwargsSpec.v (CPython keyword binding), each tied by per-case agreement evaluated inside Coq",
 ]
 ASSUMPTIONS = [
     "only programs of the DSL: int/float/str annotations, literal defaults, **kwargs last, no *args, no decorators, "
@@ -30,8 +31,23 @@ ASSUMPTIONS = [
     "stubs resolver, pydantic/attrs, class-instance defaults and source-unavailable fallbacks are not modelled",
 ]
 EXHAUSTIVE = {"quick": False, "thorough": False}
-FINDING_CLASSES = {1: "get-then-forward", 2: "inherited-init-positional", 3: "popget-hardcoded", 4: "method-override",
-                   5: "cond-origin-crash"}
+_ALL_CLASSES = {1: "get-then-forward", 2: "inherited-init-positional", 3: "pop-hardcoded", 4: "method-override",
+                5: "cond-origin-crash"}
+# Which of fixes/C13-<key>.patch have been applied to the implementation. THE LEAD FLIPS THESE when a "fix:" commit
+# lands in /repo (and turns the matching `open:` line of known_findings/C13.txt into `fixed:`). With a flag set the
+# correspondence is judged against the repaired model (coq/Model/C13KwargsFx.v, judge_fx), the class is no longer a
+# listed finding and any recurrence is a VIOLATION. VERIF_C13_FIXED=key,key is a development aid to try a patched
+# scratch worktree (VERIF_REPO) without editing this table.
+FIXES_APPLIED = {"inherited-init-positional": False, "pop-hardcoded": False, "method-override": False,
+                 "cond-origin-crash": False}
+for _k in os.environ.get("VERIF_C13_FIXED", "").split(","):
+    if _k.strip() in FIXES_APPLIED:
+        FIXES_APPLIED[_k.strip()] = True
+FINDING_CLASSES = {n: k for n, k in _ALL_CLASSES.items() if not FIXES_APPLIED.get(k, False)}
+if any(FIXES_APPLIED.values()):
+    JUDGE = "(judge_fx {| fx_mro := %s; fx_pop := %s; fx_meth := %s; fx_crash := %s |})" % tuple(
+        "true" if FIXES_APPLIED[k] else "false"
+        for k in ("inherited-init-positional", "pop-hardcoded", "method-override", "cond-origin-crash"))
 
 OPT = list("abcdefgh")
 REQ = ["r0", "r1", "r2"]
@@ -442,7 +458,7 @@ def fixed_cases():
     return cases
 
 
-KNOWN_REPLAYS = {"get-then-forward": 0, "inherited-init-positional": 3, "popget-hardcoded": 4, "method-override": 6,
+KNOWN_REPLAYS = {"get-then-forward": 0, "inherited-init-positional": 3, "pop-hardcoded": 4, "method-override": 6,
                  "cond-origin-crash": 7}
 
 
@@ -464,7 +480,7 @@ def generate(rng, tier):
 def observe(cases):
     payloads = [{"source": render(c["prog"]), "target": "C%d" % c["target"], "universe": universe(c["prog"]),
                  "masks": c["masks"]} for c in cases]
-    k = 16
+    k = max(1, min(16, len(cases) // 25))  # few cases (shrinking, replays): few interpreter start-ups
     res = run_impl_parallel("c13_kwargs.py", [{"cases": payloads[i::k]} for i in range(k)])
     out = [None] * len(cases)
     for i, r in enumerate(res):
@@ -516,9 +532,21 @@ def _variants_fn(fn):
 
 
 def shrink(case):
-    for cand in _shrink(case):
-        if runnable(cand["prog"], cand["target"]):
-            yield cand
+    """Smaller programs that still fail FOR A REASON THAT IS NOT A LISTED FINDING: the framework keeps any candidate
+    whose spec fails, which would let the shrinker drift from a new failure into a known one (e.g. get-then-forward);
+    so the candidates are judged here first and the ones explained by a listed class are dropped."""
+    import sys
+    from tie import framework as fw
+    cands = [c for c in _shrink(case) if runnable(c["prog"], c["target"])][:60]
+    if not cands:
+        return
+    known = fw.load_known_findings(PROP)
+    obs = observe(cands)
+    _, bad_in, bad_out = fw.judge_cases(sys.modules[__name__], cands, obs, tag="h")
+    keep = set(bad_in) | {i for i, k in bad_out if FINDING_CLASSES.get(k) not in known}
+    for i, c in enumerate(cands):
+        if i in keep:
+            yield c
 
 
 def _shrink(case):
@@ -548,16 +576,30 @@ def _shrink(case):
 
 
 META = {
-    "level_text": "Theorems C13_resolver_sound / C13_resolver_complete / C13_hardcoded_not_offered / C13_keeps_type_and_default "
-                  "(coq/Properties/C13.v) relate two semantics of a DSL of Python programs (class hierarchies of any depth with C3 "
-                  "linearisation, functions, methods; bodies of kwargs.pop/get and one forwarding call with positional and hard-coded "
-                  "arguments): the resolver's algorithm (Model/Kwargs.v) and CPython's keyword binding (Spec/KwargsSpec.v), by "
-                  "induction over the call-chain fuel, for every program satisfying the executable hypothesis klass = 0. Both "
-                  "semantics are tied to the real code: generated programs are written to source files, resolved with "
-                  "get_signature_parameters / add_class_arguments and really instantiated; agreement is computed inside Coq.",
-    "level_note": "Partial: the hypothesis excludes classes that inherit __init__, overridden methods called through self, bodies "
-                  "with several forwarding uses (conditional parameters) and the listed findings; those programs are covered by "
-                  "the correspondence only. Stubs/pydantic/attrs resolvers are not modelled.",
-    "technique": "Rocq proof by induction on call-chain fuel over a program DSL with two semantics + differential correspondence "
-                 "against the real resolver and the CPython interpreter, judged in Coq",
+    "level_text": "Proved in Rocq for every program of a DSL of Python sources (class hierarchies of any depth and width with C3 "
+                  "linearisation, own or inherited __init__, functions, methods; bodies of kwargs.pop/get and one forwarding call "
+                  "super().__init__/f/C/self.m with positional and hard-coded keyword arguments), by induction on the call-chain "
+                  "fuel, relating two executable semantics: the resolver's algorithm (coq/Model/Kwargs.v, written in the shape of "
+                  "_parameter_resolvers.py, bugs included) and CPython's keyword binding (coq/Spec/KwargsSpec.v). "
+                  "C13_resolver_sound(_frame): under the executable hypothesis klass_top = 0, calling the class with any duplicate-free "
+                  "set of offered names is never refused (no unexpected keyword, no multiple values, no object.__init__ leftovers). "
+                  "C13_hardcoded_not_offered (no hypothesis): a name hard-coded at the forwarding call and accepted by the callee is "
+                  "offered only if the callable declares it itself. C13_keeps_type_and_default_declared / _forwarded (no hypothesis): "
+                  "declared parameters come first with their annotation/default, a forwarding-only body offers the callee's records "
+                  "unchanged. Five *_refuted theorems exhibit, by evaluation, programs on which the unguarded statement is false of "
+                  "the faithful model (the listed findings). C13_fx_conservative + C13_repairs_close_witnesses: the flagged model "
+                  "with the four proposed repairs (coq/Model/C13KwargsFx.v) equals the faithful model when no flag is set, and with "
+                  "all flags set offers exactly the accepted parameters on the four repaired witnesses.",
+    "level_note": "Partial. NOT proved, judged per generated program inside Coq by Spec.exact_b on the observed answer: "
+                  "completeness (no reachable parameter missing), type/default for bodies that mix pop/get with forwarding "
+                  "(group_parameters), and everything outside klass_top = 0 (classes that inherit __init__, methods overridden "
+                  "below the class whose __init__ calls them, hard-coded names the callee does not accept, the listed findings). "
+                  "Both semantics are hand-written and tied only by the correspondence run: each generated program is written to a "
+                  "real source file, resolved with get_signature_parameters and add_class_arguments and really instantiated with up "
+                  "to 40 keyword sets; Coq checks that Model.resolve reproduces the offered list (name, annotation, default, kind, "
+                  "tuple origin), that the model's C3 gives type.mro() and that Spec.call reproduces every observed outcome. "
+                  "Bodies with several forwarding uses (conditional parameters across calls), *args, self._kw = kwargs, constant "
+                  "conditionals, super(Cls, self), stubs/pydantic/attrs resolvers and class-instance defaults are not modelled.",
+    "technique": "Rocq proof by induction on call-chain fuel over a program DSL with two executable semantics (resolver model, CPython "
+                 "keyword binding) + differential correspondence against the real resolver, parser and interpreter, judged in Coq",
 }
